@@ -11,12 +11,13 @@ Proof. apply C18_split. Qed.
 Lemma encode_message_acc c st m b st' : encode_message c st m = Ok (b, st') ->
   es_datasize st' = wrap 32 (es_datasize st + len b) /\ es_crc st' = write (es_crc st) b.
 Proof.
-  unfold encode_message.
+  unfold encode_message, encode_message_chunks, bind.
   destruct (if e_compressed c then compress_timestamp (es_tsref st) (es_lastts st) m else (None, es_tsref st, es_lastts st)) as [[cmp tsref] lastts].
   destruct (match cmp with Some (h, fs) => (h, fs, true) | None => (MesgNormalHeaderMask, m_fields m, false) end) as [[hdr fs] compressed].
   destruct (lru_put _ _) as [[local isnew] lru'].
   destruct (marshal_message _ _) as [mb|]; [|discriminate].
-  intros H. injection H as <- <-. cbn [es_datasize es_crc]. split; reflexivity.
+  intros H. injection H as <- <-. cbn [fst snd es_datasize es_crc].
+  rewrite concat_app. cbn [concat]. rewrite app_nil_r. split; reflexivity.
 Qed.
 
 Lemma wrap_add w a b : wrap w (wrap w a + b) = wrap w (a + b).
